@@ -4,7 +4,7 @@ import Mathlib.Tactic.LinearCombination
 # Helper lemmas for C12: the 3-D cones and the ice-cream cone at `ℝ`
 -/
 namespace VOPy.ConeFormulas
-open VOPy Real
+open VOPy VOPy.ConeOrd Real
 
 /-! ### `ConeOrder3D` -/
 
